@@ -413,3 +413,24 @@ Section Until.
     | S n => let s' := body s in if cond s' then Ok s' else act_until n s'
     end.
 End Until.
+
+(* ---- compositional semantics of the operation sequence: which leaf acts where, inverted or not, moment by moment.
+   `inv` and `g` are the inversion and the qubit relabelling inherited from the enclosing operations; keys,
+   conditions and parameters are erased (they are covered by the key-set theorems and the correspondence). ---- *)
+Definition erase_leaf (l : leaf) : leaf := Leaf (uid l) (sgn l) (lqs l) [] [] [].
+Definition strip_op (o : op) : op := match o with OLeaf l => OLeaf (erase_leaf l) | OSub _ _ => o end.
+Definition strip_circ (c : circ) : circ := map (map strip_op) c.
+
+Fixpoint ops_nested (inv : bool) (g : Z -> Z) (o : op) : circ :=
+  match o with
+  | OLeaf l => [[OLeaf (Leaf (uid l) (xorb (sgn l) inv) (map g (lqs l)) [] [] [])]]
+  | OSub c f =>
+      match reps f with
+      | RInt r =>
+          let inv' := xorb inv (r <? 0) in
+          let g' := fun q => g (zlookup (qm f) q) in
+          let ms := map (fun m => zip_all (map (ops_nested inv' g') m)) c in
+          repeat_app (Z.abs_nat r) (List.concat (if inv' then rev ms else ms))
+      | RSym _ _ => []
+      end
+  end.
